@@ -55,6 +55,12 @@ theories/RunnerSteps.vos theories/RunnerSteps.vok theories/RunnerSteps.required_
 theories/RunnerVerdict.vo theories/RunnerVerdict.glob theories/RunnerVerdict.v.beautified theories/RunnerVerdict.required_vo: theories/RunnerVerdict.v theories/Base.vo theories/Status.vo theories/Rollup.vo theories/Runner.vo gen/StatusTable.vo
 theories/RunnerVerdict.vio: theories/RunnerVerdict.v theories/Base.vio theories/Status.vio theories/Rollup.vio theories/Runner.vio gen/StatusTable.vio
 theories/RunnerVerdict.vos theories/RunnerVerdict.vok theories/RunnerVerdict.required_vos: theories/RunnerVerdict.v theories/Base.vos theories/Status.vos theories/Rollup.vos theories/Runner.vos gen/StatusTable.vos
+theories/Select.vo theories/Select.glob theories/Select.v.beautified theories/Select.required_vo: theories/Select.v theories/Base.vo
+theories/Select.vio: theories/Select.v theories/Base.vio
+theories/Select.vos theories/Select.vok theories/Select.required_vos: theories/Select.v theories/Base.vos
+theories/SelectProofs.vo theories/SelectProofs.glob theories/SelectProofs.v.beautified theories/SelectProofs.required_vo: theories/SelectProofs.v theories/Base.vo theories/Select.vo
+theories/SelectProofs.vio: theories/SelectProofs.v theories/Base.vio theories/Select.vio
+theories/SelectProofs.vos theories/SelectProofs.vok theories/SelectProofs.required_vos: theories/SelectProofs.v theories/Base.vos theories/Select.vos
 theories/Status.vo theories/Status.glob theories/Status.v.beautified theories/Status.required_vo: theories/Status.v theories/Base.vo
 theories/Status.vio: theories/Status.v theories/Base.vio
 theories/Status.vos theories/Status.vok theories/Status.required_vos: theories/Status.v theories/Base.vos
@@ -76,6 +82,9 @@ props/C03.vos props/C03.vok props/C03.required_vos: props/C03.v theories/Base.vo
 props/C09.vo props/C09.glob props/C09.v.beautified props/C09.required_vo: props/C09.v theories/Base.vo theories/Status.vo theories/Rollup.vo theories/Runner.vo theories/RunnerSteps.vo theories/RunnerQuiet.vo theories/RunnerSelect.vo theories/RunnerEq.vo gen/StatusTable.vo
 props/C09.vio: props/C09.v theories/Base.vio theories/Status.vio theories/Rollup.vio theories/Runner.vio theories/RunnerSteps.vio theories/RunnerQuiet.vio theories/RunnerSelect.vio theories/RunnerEq.vio gen/StatusTable.vio
 props/C09.vos props/C09.vok props/C09.required_vos: props/C09.v theories/Base.vos theories/Status.vos theories/Rollup.vos theories/Runner.vos theories/RunnerSteps.vos theories/RunnerQuiet.vos theories/RunnerSelect.vos theories/RunnerEq.vos gen/StatusTable.vos
+props/C10.vo props/C10.glob props/C10.v.beautified props/C10.required_vo: props/C10.v theories/Base.vo theories/Select.vo theories/SelectProofs.vo
+props/C10.vio: props/C10.v theories/Base.vio theories/Select.vio theories/SelectProofs.vio
+props/C10.vos props/C10.vok props/C10.required_vos: props/C10.v theories/Base.vos theories/Select.vos theories/SelectProofs.vos
 props/C12.vo props/C12.glob props/C12.v.beautified props/C12.required_vo: props/C12.v theories/Base.vo theories/Status.vo theories/Rollup.vo theories/Runner.vo theories/RunnerVerdict.vo theories/RunnerSteps.vo theories/RunnerQuiet.vo theories/RunnerSelect.vo theories/RunnerHooks.vo theories/RunnerEq.vo gen/StatusTable.vo
 props/C12.vio: props/C12.v theories/Base.vio theories/Status.vio theories/Rollup.vio theories/Runner.vio theories/RunnerVerdict.vio theories/RunnerSteps.vio theories/RunnerQuiet.vio theories/RunnerSelect.vio theories/RunnerHooks.vio theories/RunnerEq.vio gen/StatusTable.vio
 props/C12.vos props/C12.vok props/C12.required_vos: props/C12.v theories/Base.vos theories/Status.vos theories/Rollup.vos theories/Runner.vos theories/RunnerVerdict.vos theories/RunnerSteps.vos theories/RunnerQuiet.vos theories/RunnerSelect.vos theories/RunnerHooks.vos theories/RunnerEq.vos gen/StatusTable.vos
